@@ -270,7 +270,9 @@ func insHistory(id string, rng *rand.Rand, lt *layoutTables, actions []string) M
 			for k := range clone.Doors {
 				clone.Doors[k] ^= 0x5a
 			}
-			clone.Doors[1] = 99
+			if clone.Doors != nil {
+				clone.Doors[1] = 99
+			}
 			after := sem(&card)
 			ev = append(ev, M{"ev": "clone", "what": "card", "orig": orig, "clone": pc, "orig_after": after})
 
